@@ -111,6 +111,16 @@ func MakeBidToBuy1SatOrdinal(ctx context.Context, mba *MakeBidArgs) (*bt.Tx, err
 		return nil, err
 	}
 
+	// Change adds nothing when the funds do not reach the fee: the flow must
+	// not go on to complete a transaction that underpays the quote.
+	enough, err := tx.EstimateIsFeePaidEnough(mba.FQ)
+	if err != nil {
+		return nil, err
+	}
+	if !enough {
+		return nil, bt.ErrInsufficientFees
+	}
+
 	//nolint: dupl // TODO: are 2 dummies useful or to be removed?
 	for i, u := range mba.BidderUTXOs {
 		// skip 2nd input (ordinals input)
@@ -202,15 +212,16 @@ func AcceptBidToBuy1SatOrdinal(ctx context.Context, vba *ValidateBidArgs, aba *A
 	tx := aba.PSTx.Clone()
 
 	tx.Outputs[1].LockingScript = aba.SellerReceiveScript
-	// check if fees paid are still enough with new
-	// locking script
-	enough, err := tx.IsFeePaidEnough(vba.ExpectedFQ)
+	tx.Inputs[1].PreviousTxScript = vba.OrdinalUTXO.LockingScript
+	tx.Inputs[1].PreviousTxSatoshis = vba.OrdinalUTXO.Satoshis
+
+	// check if fees paid are still enough with the new locking script and
+	// with the unlocking script that is about to be added for the ordinal
+	enough, err := tx.EstimateIsFeePaidEnough(vba.ExpectedFQ)
 	if err != nil || !enough {
 		return nil, bt.ErrInsufficientFees
 	}
 
-	tx.Inputs[1].PreviousTxScript = vba.OrdinalUTXO.LockingScript
-	tx.Inputs[1].PreviousTxSatoshis = vba.OrdinalUTXO.Satoshis
 	err = tx.FillInput(ctx, aba.OrdinalUnlocker, bt.UnlockerParams{InputIdx: 1})
 	if err != nil {
 		return nil, err
